@@ -118,6 +118,7 @@ def run(prop, tier):
     cov = rep.cov
     cov.update(states=0, transitions=0, traces_validated_against_impl=0, configs=[], action_kinds={})
     drv = build_driver()
+    trace_every = 4 if tier == "quick" else 1
     for cfg, sim in CONFIGS[tier]:
         nco, wrapset, ms = cfg_const(cfg)
         lines = []
@@ -136,11 +137,13 @@ def run(prop, tier):
         cases = []
         for i, l in enumerate(lines):
             cases.append({"id": i, "src": render(l, nco, wrapset, ms), "gor": True, "timeout": 8000,
+                          "trace": "co" if i % trace_every == 0 else "", "mem": (1 << 30) if i % trace_every == 0 else 0,
                           "gor_expect": sum(1 for s in l["final"] if s != "dead")})
             for a in l["h"][-1:]:
                 cov["action_kinds"][a["a"]] = cov["action_kinds"].get(a["a"], 0) + 1
         outs = run_lua_cases(drv, cases)
         nbad = 0
+        traces = [("%s#%d" % (cfg, i), outs[i]["trace"]) for i in range(len(lines)) if outs.get(i) and outs[i].get("trace")]
         for i, l in enumerate(lines):
             o = outs.get(i)
             cov["traces_validated_against_impl"] += 1
@@ -176,8 +179,43 @@ def run(prop, tier):
                                     "observed": o, "why": why})
             elif len(l["h"]) >= 4:
                 rep.sample({"history": l["h"], "program": cases[i]["src"], "events": o["events"]}, cap=2)
+        if traces:
+            ok, info = validate_traces("CoTrace", "CoTrace.cfg", traces, {"k": "", "g": 0, "th": 0, "o": 0})
+            cov["hook_traces_validated"] = cov.get("hook_traces_validated", 0) + len(traces)
+            cov["hook_trace_events"] = cov.get("hook_trace_events", 0) + info["lines"]
+            if not ok:
+                i = int(info["trace_tag"].split("#")[1])
+                sig = {"kind": "trace-rejected", "event": info["event"].get("k", ""), "invariant": info.get("invariant", "")}
+                rep.violation(sig, {"cmd": "lua-run", "src": cases[i]["src"], "trace": "co", "rejected_at": info["event"],
+                                    "context": info["context"], "note": "CoTrace.tla cannot match this event: the goroutine "
+                                    "that emitted it does not hold the run token / illegal status transition / goroutine left"})
+            log("[%s] %s: %d hook traces (%d events) validated against CoTrace: %s" % (prop, cfg, len(traces), info["lines"], "accepted" if ok else "REJECTED"))
         cov["configs"].append({"cfg": cfg, "distinct": res.distinct, "generated": res.generated, "programs": len(lines), "mismatching": nbad})
         log("[%s] %s: %d distinct, %d programs run, %d mismatching" % (prop, cfg, res.distinct, len(lines), nbad))
+    # ---- goroutine-level protocol model (CoProto.tla): all interleavings of all short scripts
+    proto = [("CoProtoQ.cfg", None), ("CoProtoLive.cfg", None)] if tier == "quick" else [("CoProtoT.cfg", None), ("CoProtoLive.cfg", None)]
+    cov["protocol_model"] = []
+    for cfg, _ in proto:
+        res = run_tlc("CoProto", cfg, timeout=1200)
+        cov["protocol_model"].append({"cfg": cfg, "distinct": res.distinct, "generated": res.generated, "verdict": res.violation or "ok"})
+        cov["states"] += res.distinct
+        cov["transitions"] += res.generated
+        if res.violation:
+            # a lead only (R1): the hook traces above are what binds the protocol to the code
+            log("[%s] design-level lead in %s: %s" % (prop, cfg, res.violation))
+            raise Infra("CoProto design-level model no longer satisfies its invariants (%s): update the model to the code" % res.violation)
+    # the model with a __close handler that resumes/closes its own dying coroutine deadlocks (E4 runs handlers under t.mux):
+    res = run_tlc("CoProto", "CoProtoHandler.cfg", timeout=600)
+    cov["protocol_model"].append({"cfg": "CoProtoHandler.cfg", "distinct": res.distinct, "verdict": res.violation or "ok"})
+    if res.violation and "Deadlock" in res.violation:
+        src = ('local co\nco = coroutine.create(function()\n  local x <close> = setmetatable({}, {__close = function() '
+               'emit("handler", coroutine.close(co)) end})\n  error("boom", 0)\nend)\nemit("res", coroutine.resume(co))\n')
+        o = run_lua_cases(drv, [{"id": 0, "src": src, "timeout": 3000}])[0]
+        if o.get("timeout"):
+            o2 = run_lua_cases(drv, [{"id": 0, "src": src, "timeout": 6000}])[0]   # reproduce once more (R1)
+            if o2.get("timeout"):
+                rep.violation({"kind": "hang", "why": "close-handler-closes-own-dying-coroutine"},
+                              {"cmd": "lua-run", "src": src, "observed": o2, "model": "CoProtoHandler.cfg: " + res.violation})
     cov["exhaustive"] = True
     rep.assumptions += ["error message wording is not compared (R2)", "scripts are straight-line; handlers only emit"]
     return rep.finish()
